@@ -4,6 +4,7 @@
 //! One case per line; a stateful case (operation sequence / history) is one line too.
 mod codec;
 mod prm;
+mod diag;
 mod util;
 
 use std::io::{BufRead, Write};
@@ -15,6 +16,7 @@ type RunFn = fn(&str) -> String;
 const DOMAINS: &[(&str, GenFn, RunFn)] = &[
     ("codec", codec::gen, codec::run_case),
     ("prm", prm::gen, prm::run_case),
+    ("diag", diag::gen, diag::run_case),
 ];
 
 fn main() {
